@@ -9637,7 +9637,13 @@ class NetCDFRead(IORead):
             return []
 
         # CF properties
-        properties = self.read_vars["variable_attributes"][connectivity_ncvar]
+        #
+        # Note: A copy, so that removing "start_index" does not
+        #       change the attributes of the netCDF variable that
+        #       another mesh topology variable may also reference.
+        properties = self.read_vars["variable_attributes"][
+            connectivity_ncvar
+        ].copy()
         start_index = properties.pop("start_index", 0)
         cell_dimension = self._ugrid_cell_dimension(
             location, connectivity_ncvar, mesh
